@@ -32,6 +32,9 @@ PROGRAMS = {
     "payload-io": [{"processor": "FloatPayloadSource"}, {"processor": "VCtxWriteOperation"}, {"processor": "delete:w"},
                    {"processor": "FloatPayloadSink"}],
 }
+PROGRAMS["qualified-names"] = [{"processor": "semantiva.examples.test_utils:FloatValueDataSource", "parameters": {"value": 2.0}},
+                               {"processor": "vpkg.ext2:VQualifiedScale"},      # a module nobody registered
+                               {"processor": "vpkg.ext2:VQualifiedScale"}, {"processor": "FloatDataSink"}]
 CHECKPOINTS = (50, 150, 450)
 CLASS_MACHINERY = None
 
@@ -217,7 +220,7 @@ def check(tier: str) -> int:
         raise core.MachineryError("sensitivity: per-run registration should violate RegistryBoundedByDistinctConfigs")
     run.add_tlc(sens, count_states=False)
     cps = (20, 60, 180) if tier == "quick" else CHECKPOINTS
-    progs = list(PROGRAMS) if tier == "thorough" else ["plain", "sweep-slice", "payload-io"]
+    progs = list(PROGRAMS) if tier == "thorough" else ["plain", "sweep-slice", "payload-io", "qualified-names"]
     jobs = [{"prog": p, "mode": m, "checkpoints": cps} for p in progs for m in ("reused", "fresh", "launch", "queue", "fresh-traced", "reused-traced")]
     results = []
     for chunk in pmap(modes_chunk, jobs, chunk=1, tasks_per_child=1):
